@@ -24,7 +24,9 @@ from termcolor import colored
 
 class Template(object):
 
-    TEMPLATE_PATTERN = re.compile(r'\[\[[^]]*]]')
+    # A placeholder cannot contain curly brackets: templates are split into
+    # scopes before the placeholders of each part are evaluated.
+    TEMPLATE_PATTERN = re.compile(r'\[\[[^]{}]*]]')
 
     KNOWN_FORMATTERS = (
         'time_span', 'date_time', 'duration', 'merge', 'attachment',
